@@ -316,6 +316,7 @@ PROPS = {
         trusted_base=TB_COMMON + [
             "the model is of the code WITH /verif/pending_fixes/F8.patch (EventSender::send without the cancel shortcut); on a tree without it the oracle `stale-para` / `fresh-panic` fires and the replay diverges at the first park of a fresh coroutine that reuses the stack of a removed select coroutine",
             "src/local.rs, the generator's para slot and pool.rs have no hooked shared-memory operations: the tie is at the level of API events recorded around the real calls (cls.with / cls.init / cls.drop ids under a bijection, first.park results, co.start / co.end); which generator a spawn gets is not observable (stack.reuse records that reuse happened)",
+            "with /verif/pending_hooks/wp-cq3.patch in /repo the consumption of the para slot is an event (note para.get v / para.set v at get_co_para / set_co_para / the yield_with shortcut): a modelled wait that switched out must consume the para before it returns and consume what the model's wait consumes; without the patch the traces have no para notes and only the result values tie the para",
             "generator crate: `para` is a plain Option in the generator that init_code does not touch (read from its source, version pinned by Cargo.lock); Rust drops every value of the CoroutineLocal's HashMap exactly once when the Box is freed",
             "the para table (which EventSource's yield_back checks the cancel, which API consumes para) is transcribed from yield_now.rs / park.rs / sleep.rs / fast_blocking.rs / cqueue.rs / cancel.rs / scheduler.rs; I/O event sources (co_io_result) are not in the table",
         ],
@@ -323,11 +324,14 @@ PROPS = {
             "a coroutine is resumed by one thread at a time (C01) and a parked coroutine is taken out of its slot by exactly one of unparker / timer / canceller (C02, C08, C09): the model's wake step is atomic",
             "thread fallback values are dropped by std's TLS destructors at thread exit (not may's code)",
         ],
-        rule="live mode on the real runtime, 1-3 workers, pool capacity 2 (FIFO) so that stacks are reused at once: part 1: 2-4 coroutines and 0-2 threads access 1-3 coroutine_local! keys holding drop-counted values between yields / sleeps, coroutines end by return / panic / cancel; part 2: 1-3 pool histories: a predecessor that uses CLS and ends normally / by panic / cancelled while parked / after a park that timed out / as a cqueue arm removed around its send (the F8 window) / cancelled while parked with a guard whose Drop calls yield_now, sleep(1 ms) or Blocker::park(Some(1 ms)) during the Cancel unwind (the `yield_with` shortcut while unwinding: only check_cancel's get_co_para clears it), then 2-3 fresh coroutines whose first action is Blocker::park(Some(d)) with or without unpark, a contended Mutex::lock, sleep, or a CLS access. Non-trivial = a fresh coroutine ran on a predecessor's stack (stack.reuse in the trace); distinct = SHA-1 of the canonical trace",
+        rule="live mode on the real runtime, 1-3 workers, pool capacity 2 (FIFO) so that stacks are reused at once: part 1: 2-4 coroutines and 0-2 threads access 1-3 coroutine_local! keys holding drop-counted values between yields / sleeps, coroutines end by return / panic / cancel; part 2: 1-3 pool histories: a predecessor that uses CLS and ends normally / by panic / cancelled while parked / after a park that timed out / as a cqueue arm removed around its send (the F8 window) / cancelled while parked with a guard whose Drop calls yield_now, sleep(1 ms) or Blocker::park(Some(1 ms)) during the Cancel unwind (the `yield_with` shortcut while unwinding: only check_cancel's get_co_para clears it), then 2-3 fresh coroutines whose first action is Blocker::park(Some(d)) with or without unpark, a contended Mutex::lock, sleep, or a CLS access; part 3 (40 % of the scenarios): 6-12 coroutines in coroutine::park_timeout(1-3 ms) while main sweeps Coroutine::unpark over them around the expiry (pool capacity raised to keep all their stacks), then as many fresh coroutines each make one probing wait whose result they must own: blocking UdpSocket::recv_from without time-out that gets its datagram (co_io_result reads the para), Blocker::park(5 s) that is unparked, Semphore::wait_timeout(5 s) that is posted. Non-trivial = a fresh coroutine ran on a predecessor's stack (stack.reuse in the trace); distinct = SHA-1 of the canonical trace",
     ),
     "C16": dict(
         lean_props=["MayVerif.Props.C16"],
-        families=[dict(mode="live", name="cqueue", quick=480, thorough=8000, nontrivial=r"cqueue\.ev_queue@0 q\.pop 0 0 0 ", timeout=600)],
+        families=[dict(mode="live", name="cqueue", quick=480, thorough=8000, nontrivial=r"cqueue\.ev_queue@0 q\.pop 0 0 0 ", timeout=600),
+                  # F25: coroutine poller, arms that send while it enters its park, src/park.rs in the filter (non-trivial = the
+                  # poller's own Park::subscribe resumed it in place: fast_wake_up took wait_co)
+                  dict(mode="live", name="cqueue_co", quick=360, thorough=6000, nontrivial=r"k:c:p#\d+ a park\.wait_co@\S+ opt\.take 0 0 \d{6,} ", timeout=600)],
         trusted_base=TB_COMMON + [
             "the model and the replayed traces are of the code WITH /verif/pending_fixes F9, F8, F9b, C16-early-finished (F16a), C16-subscribe-uaf (F16b); on the pinned tree the oracles report F9 (process abort, found in a child process) and the traces diverge",
             "Blocker (park/unpark of the poller) is the abstract binary token (C02): unpark is folded into the to_wake.take that found the blocker, the poller's park returns only with the token or by its time-out",
@@ -336,6 +340,7 @@ PROPS = {
             "thread::panicking() inside an arm that runs nested on an unwinding poller thread suppresses the Cancel panic of check_cancel: modelled (`sup`) as the code behaves; the resulting livelock of arms that wait for ever is a reported defect and such arms are not generated together with panicking arms (VH_CQ_LIVELOCK=1 enables them)",
         ],
         assumptions=[
+            "the Park inside the poller's Blocker is the abstract binary token in the model: the wait of `Park::drop` (last Arc<Blocker>, dropped by EventSender::subscribe) for the poller's own Park::subscribe frame, which fast_wake_up may have put BELOW the poller that runs the arm, is outside Model/Cqueue.lean (defect F25: subscribe must clear wait_kernel before it drops the blocker); it is the subject of the small finite model Model/CqueueWake.lean (theorem sender_subscribe_terminates, witness reverted_f25_deadlock), which is NOT tied by replay - the real code is covered by family cqueue_co (park.rs events are accepted as noise by the replay; oracle: event-flood guard + hang watchdog)",
             "fair scheduling for poller_not_stuck (quiescence form: parked without token and no arm inside a cqueue operation => nothing queued, still registered, some arm still in a top half)",
             "quantitative time is not modelled: Timeout-not-before-the-duration is a harness oracle (wall-clock lower bound), not a theorem",
             "one poller per cqueue (add/poll/drop from the owner), Selector::remove from one other thread; arms added before the first poll in the scenarios (the model allows add at any idle point)",
